@@ -333,6 +333,17 @@ theorem exit_eq_spec_full (c : Cfg) (all ran : List Item) (hs : Sched c all ran)
     | pipe => exact ((C15_flush c ran hfz hwr hok).2 hf).1
     | err => exact ((C15_flush c ran hfz hwr hok).1 hf).1
 
+/-- What the model says where the `--stats` trailer / `--json` summary is the only output and cannot be written.
+Single-threaded (block buffered) it is what the final flush writes: status 2.  With several threads
+`print_stats`'s result and the flush after it are both discarded (`let _ =`), so the run ends as if nothing
+had happened: status 1 (known finding `summary-write-error-ignored`; the same happens single-threaded under
+`--line-buffered`, where nothing is left for the final flush). -/
+theorem summary_only_write_error :
+    (main { stats := true, flush := .err } .ok [.file 0 (.ok false) .ok]).exit = 2 ∧
+    (main { stats := true, flush := .err, parallel := true } .ok [.file 0 (.ok false) .ok]) = ⟨1, [], [0]⟩ ∧
+    specExitFull { stats := true, flush := .err } [.file 0 (.ok false) .ok] = 2 := by
+  decide
+
 /-! ### `--stats` -/
 
 /-- With `--stats` (or `--json`) and a live consumer, the summary is printed and counts exactly the files
